@@ -8,6 +8,9 @@
 #ifndef L
 #define L 6
 #endif
+#ifndef BUFSZ
+#define BUFSZ 96
+#endif
 #ifndef GROUPMAX
 #define GROUPMAX 999
 #endif
@@ -52,7 +55,13 @@ static void mk_obj(struct hwloc_obj *o, union hwloc_obj_attr_u *a)
 {
   memset(o, 0, sizeof *o); memset(a, 0, sizeof *a);
   o->attr = a;
+#ifdef TYPE
+  /* exhaustive case split over the 20 object types: one query per type, all must pass
+   * (a C constant, not an assumption: symex does not propagate assumed equalities) */
+  o->type = (hwloc_obj_type_t) TYPE;
+#else
   o->type = (hwloc_obj_type_t) vp_in_range(HWLOC_OBJ_TYPE_MIN, HWLOC_OBJ_TYPE_MAX - 1);
+#endif
 #ifdef KIND
   /* exhaustive case split over the five attribute kinds (every kind is its own query, all must pass) */
   { int k = hwloc__obj_type_is_cache(o->type) ? 1 : o->type == HWLOC_OBJ_GROUP ? 2 : o->type == HWLOC_OBJ_BRIDGE ? 3 : o->type == HWLOC_OBJ_OS_DEVICE ? 4 : 0;
@@ -80,11 +89,11 @@ VP_HARNESS(h_roundtrip)
   mk_obj(&o, &a);
   unsigned long flags = vp_in64();
   VP_ASSUME(!(flags & HWLOC_OBJ_SNPRINTF_FLAG_SHORT_NAMES));
-  char *buf = malloc(96);
+  char *buf = malloc(BUFSZ);
   VP_NONNULL(buf);
   VP_SYMBOLIC_PHASE(1);
-  int n = hwloc_obj_type_snprintf(buf, 96, &o, flags);
-  VP_CHECK(n > 0 && n < 96 && buf[n] == 0, "type_snprintf: a non-empty NUL-terminated text for every type");
+  int n = hwloc_obj_type_snprintf(buf, BUFSZ, &o, flags);
+  VP_CHECK(n > 0 && n < BUFSZ && buf[n] == 0, "type_snprintf: a non-empty NUL-terminated text that fits the (type-specific) buffer");
   hwloc_obj_type_t pt = (hwloc_obj_type_t) -1;
   memset(&pa, 0, sizeof pa);
   int r = hwloc_type_sscanf(buf, &pt, &pa, sizeof pa);
@@ -97,11 +106,15 @@ VP_HARNESS(h_roundtrip)
   /* hwloc_obj_type_string of the type parses back to the type as well */
   hwloc_obj_type_t pt2 = (hwloc_obj_type_t) -1;
   VP_CHECK(hwloc_type_sscanf(hwloc_obj_type_string(o.type), &pt2, NULL, 0) == 0 && pt2 == o.type, "type_string parses back to the type");
+#ifdef TYPE
+  VP_WITNESS_IF(flags & HWLOC_OBJ_SNPRINTF_FLAG_LONG_NAMES, "long names requested");
+#else
 #if !defined(KIND) || KIND == 4
   VP_WITNESS_IF(o.type == HWLOC_OBJ_OS_DEVICE && a.osdev.types == 0x41 && (flags & HWLOC_OBJ_SNPRINTF_FLAG_LONG_NAMES), "an OS device with two types, long names");
 #endif
 #if !defined(KIND) || KIND == 2
   VP_WITNESS_IF(o.type == HWLOC_OBJ_GROUP && a.group.depth == 12, "a group with a depth");
+#endif
 #endif
 #if defined(KIND) && KIND == 0
   VP_WITNESS_IF(o.type == HWLOC_OBJ_NUMANODE, "a NUMA node");
